@@ -43,8 +43,11 @@ import Midgard.Proofs.WriterFilesCrdRange
 import Midgard.Proofs.WriterFilesVel
 import Midgard.Proofs.WriterFilesTms
 import Midgard.Proofs.WriterFilesCsv
+import Midgard.Proofs.WriterCsvParse
 import Midgard.Generated.WriterEffects
 import Midgard.Proofs.WriterSta
+import Midgard.Proofs.WriterSta002
+import Midgard.Proofs.WriterTmsRef
 
 namespace Midgard.Props.C17
 open Midgard.Text Midgard.FixedCol Midgard.WriterCells Midgard.Writers Midgard.Generated.WriterLayouts
@@ -317,6 +320,100 @@ theorem readback_is_rounding (p : Nat) (q : Rat) :
       ∀ z : Int, q * Decimal.pow10 p = (z : Rat) → v = q :=
   ⟨_, rfl, Decimal.fixedValue_close q p, fun z hz => Decimal.fixedValue_exact q p z hz⟩
 
+/-! ### what a parser column reads of a written line (semantics of the alignment tables) -/
+
+/-- **A parser column reads a writer cell.**  For any line layout `pre ++ fld n sp :: post`, any values of which those up to
+this cell fit their widths, and any parser column `[a, b)`: if — checked on the table — every column `≥ a` of the part before
+the cell and every column `< b` of the part after it is a literal blank (`blankFrom`, `blankUpTo`), and `[a, b)` contains the
+part of the cell its text occupies (right-aligned: from `end − length` to the end; left-aligned: from the start to
+`start + length`), then `line[a:b].strip()` is the text of the cell's value — also when the column is narrower than the cell
+on its padded side, wider than the cell, or starts inside the separator before it. -/
+theorem parser_column_reads_cell (pre post : List Cell) (n : String) (sp : Spec) (vals : List Value) (line : Str) (a b : Nat)
+    (hfit : allFit (pre ++ [.fld n sp]) vals = true)
+    (hr : renderCells (pre ++ .fld n sp :: post) vals = some line)
+    (hpre : blankFrom a 0 pre = true) (hpost : blankUpTo b (nominalWidth pre + sp.width) post = true) :
+    ∃ v rest, vals.drop (fieldCount pre) = v :: rest ∧
+      (Clean (v.text sp) = true →
+       (if padsRight sp v then a + (v.text sp).length ≤ nominalWidth pre + sp.width ∧ nominalWidth pre + sp.width ≤ b
+        else a ≤ nominalWidth pre ∧ nominalWidth pre + (v.text sp).length ≤ b) →
+       strip (Text.slice a b line) = v.text sp) :=
+  column_reads_cell pre post n sp vals line a b hfit hr hpre hpost
+
+/-- the regenerated column tables of both STA parsers against the regenerated TYPE 002 line: every column of
+parsers/bernese_sta_v52.py up to `description`, and the first 15 columns (up to the eccentricities) of parsers/bernese_sta.py,
+pass the table check of `parser_column_reads_cell` with the text lengths of `sta002Map` -/
+theorem sta_002_tables_read :
+    (((sta002Map.map (colEntry sta002Row staV52ParserFields)).all fun e =>
+      columnReads sta002Row e.1 e.2.1 e.2.2.1 e.2.2.2.1 e.2.2.2.2) = true ∧
+      (∀ e ∈ sta002Map.map (colEntry sta002Row staV52ParserFields), e.1 < 22)) ∧
+    ((((sta002Map.take 15).map (colEntry sta002Row staParserFields)).all fun e =>
+      columnReads sta002Row e.1 e.2.1 e.2.2.1 e.2.2.2.1 e.2.2.2.2) = true ∧
+      (∀ e ∈ (sta002Map.take 15).map (colEntry sta002Row staParserFields), e.1 < 22)) :=
+  ⟨sta_v52_table, sta_54_table⟩
+
+/-- **Bernese STA, TYPE 002, line level through parsers/bernese_sta_v52.py**: for all values of a TYPE 002 line of which those
+up to `description` fit their cells: every one of the parser's 16 fixed columns (`line.rstrip()[a:b].strip()`), is the text of
+the writer cell it belongs to (`sta002Map`: station, DOMES, flag, the two epochs, receiver type / serial number / short
+number, antenna type, radome, antenna serial number / short number, the three eccentricities, description) — provided the
+text has no outer blanks and at most the length the parser's column still contains (DOMES 9, epochs 20, serial numbers 21,
+short numbers 7, eccentricities 9 characters, …). -/
+theorem sta_002_columns_v52 (vals : List Value) (line : Str) (hfit : allFit (sta002Row.take 22) vals = true)
+    (hr : renderCells sta002Row vals = some line) :
+    ∀ m ∈ sta002Map, ∃ n sp v rest, sta002Row[cellIndex sta002Row m.2.1]? = some (.fld n sp) ∧
+      vals.drop (fieldCount (sta002Row.take (cellIndex sta002Row m.2.1))) = v :: rest ∧
+      (Clean (v.text sp) = true → padsRight sp v = (sp.align == some Align.right) → (v.text sp).length ≤ m.2.2 →
+        strip (Text.slice ((staV52ParserFields.lookup m.1).getD (0, 0)).1 ((staV52ParserFields.lookup m.1).getD (0, 0)).2
+          (rstrip line)) = v.text sp) :=
+  sta_002_columns_aux staV52ParserFields sta002Map sta_v52_table vals line hfit hr
+
+/-
+Full statement: the same for all 19 columns of parsers/bernese_sta.py.  False on the current tree for `azimuth`,
+`long_name`, `description`, `remark`: that parser cuts the Bernese 5.4 layout, the writer produces the 5.2 layout.
+-/
+/-- … and through parsers/bernese_sta.py, for its first 15 columns (station … eccentricities) -/
+theorem sta_002_columns_54_partial (vals : List Value) (line : Str) (hfit : allFit (sta002Row.take 22) vals = true)
+    (hr : renderCells sta002Row vals = some line) :
+    ∀ m ∈ sta002Map.take 15, ∃ n sp v rest, sta002Row[cellIndex sta002Row m.2.1]? = some (.fld n sp) ∧
+      vals.drop (fieldCount (sta002Row.take (cellIndex sta002Row m.2.1))) = v :: rest ∧
+      (Clean (v.text sp) = true → padsRight sp v = (sp.align == some Align.right) → (v.text sp).length ≤ m.2.2 →
+        strip (Text.slice ((staParserFields.lookup m.1).getD (0, 0)).1 ((staParserFields.lookup m.1).getD (0, 0)).2
+          (rstrip line)) = v.text sp) :=
+  sta_002_columns_aux staParserFields (sta002Map.take 15) sta_54_table vals line hfit hr
+
+/-- the open-ended `remark` column of the 5.2 parser (`line.rstrip()[226:].strip()`) is the remark text (the receiver
+firmware), whatever its length -/
+theorem sta_002_remark_v52 (vals : List Value) (line : Str) (hfit : allFit (sta002Row.take 22) vals = true)
+    (hr : renderCells sta002Row vals = some line) :
+    ∃ v rest, vals.drop 16 = v :: rest ∧
+      (Clean (v.text ⟨none, 0, none, .any⟩) = true → v.okFor ⟨none, 0, none, .any⟩ = true →
+        padsRight ⟨none, 0, none, .any⟩ v = false →
+        strip (sliceFrom 226 (rstrip line)) = v.text ⟨none, 0, none, .any⟩) :=
+  sta_002_remark_aux vals line hfit hr
+
+/-- the map names the cells it means, the remark cell is the zero-wide last cell before the newline, and the 5.2 parser's
+open column starts in the blank before it -/
+theorem sta_002_map_names : (sta002Map.all fun m => match sta002Row[cellIndex sta002Row m.2.1]? with
+      | some (.fld n _) => n == m.2.1 | _ => false) = true ∧
+    sta002Row.drop 22 = [.fld "remark" ⟨none, 0, none, .any⟩, .lit "\n"] ∧
+    blankFrom 226 0 (sta002Row.take 22) = true ∧ 226 ≤ nominalWidth (sta002Row.take 22) ∧
+    fieldCount (sta002Row.take 22) = 16 := sta_002_names
+
+/-- **SINEX-TMS TIMESERIES/REF_COORDINATE, line level**: every `SinexField` column of the parser's
+`timeseries_ref_coordinate` table that belongs to a formatted cell (station, epoch, X, Y, Z, reference frame; `[start, next
+start)`, the last one up to the end of the line) reads the text of that cell, for all values that fit their cells — the
+semantic form of `tms_ref_coordinate_aligned`; the numbers then are the reference coordinates rounded to 4 decimals
+(`parse_fmtFixed`). -/
+theorem tms_ref_coordinate_columns (vals : List Value) (line : Str) (hfit : allFit tmsRefRow vals = true)
+    (hr : renderCells tmsRefRow vals = some line) :
+    ∀ m ∈ tmsRefMap, ∃ n sp v rest, tmsRefRow[cellIndex tmsRefRow m.2.1]? = some (.fld n sp) ∧
+      vals.drop (fieldCount (tmsRefRow.take (cellIndex tmsRefRow m.2.1))) = v :: rest ∧
+      (Clean (v.text sp) = true → padsRight sp v = (sp.align == some Align.right) → (v.text sp).length ≤ m.2.2 →
+        strip (Text.slice
+          (((sinexFieldIntervals tmsRefCoordFields (nominalWidth tmsRefRow.dropLast)).lookup m.1).getD (0, 0)).1
+          (((sinexFieldIntervals tmsRefCoordFields (nominalWidth tmsRefRow.dropLast)).lookup m.1).getD (0, 0)).2
+          (rstrip line)) = v.text sp) :=
+  tms_ref_columns_aux vals line hfit hr
+
 /-! ### Bernese STA: which TYPE 002 records are written (`Model/WriterSta.lean`) -/
 
 /-- **`_get_object_for_date` returns an entry of the history whose period contains the date** (and `none` exactly in an
@@ -439,6 +536,40 @@ theorem tms_field_tables_agree :
     (tmsParserFieldDef.map (·.1)).Nodup := by
   decide +kernel
 
+/-! ### csv_: the parser model (pandas behaviours P1–P10 of `Model/WriterCsv.lean`, probed on every run) on written files -/
+
+/-- **The token rows of a written file**: a header line and data lines joined with commas from plain tokens (no separator,
+`#`, line break or leading blank; no line that is a single blank token) are cut by the parser model into exactly these rows
+(text mode, line iteration, comment cutting, separator class, `skipinitialspace`, blank-line skipping). -/
+theorem csv_rows_of_written_file (rows : List (List Str)) (hne : ∀ r ∈ rows, r ≠ [])
+    (hplain : ∀ r ∈ rows, ∀ t ∈ r, WriterCsv.plainTok t = true)
+    (hkeep : ∀ r ∈ rows, ¬ (r.length = 1 ∧ isBlank (r.headD []) = true)) :
+    WriterCsv.csvRows ((rows.map fun r => joinWith ',' r ++ ['\n']).flatten) = rows :=
+  WriterCsv.csvRows_written rows hne hplain hkeep
+
+/-- a `%d` column is read as exactly its integers -/
+theorem csv_int_column (is : List Int) (hne : is ≠ []) :
+    WriterCsv.inferCol (is.map Decimal.fmtInt) = some (.ints is) :=
+  WriterCsv.infer_int_column is hne
+
+/-- a `%.pf` column (`p > 0`, not all NaN) is read as a float column: every value rounded to `p` decimals, NaN for NaN -/
+theorem csv_float_column (p : Nat) (hp : 0 < p) (vs : List (Option Rat)) (hsome : ∃ v ∈ vs, v.isSome = true) :
+    WriterCsv.inferCol (vs.map (WriterCsv.floatTok p)) =
+      some (.floats (vs.map fun v => v.map fun q => Decimal.fixedValue q p)) :=
+  WriterCsv.infer_float_column p hp vs hsome
+
+/-- a column printed as `nan` throughout is dropped by the parser (by design: `dropna(axis="columns", how="all")`) -/
+theorem csv_nan_column_dropped (n : Nat) : WriterCsv.inferCol (List.replicate n "nan".toList) = none :=
+  WriterCsv.infer_nan_column n
+
+/-- a `%s` column none of whose tokens is an NA token and one of whose tokens is no number (nor `True`/`False`) is read as
+exactly its texts.  (A text column of numbers only is read as numbers — P2 — and one containing `NA`, `null`, … loses
+them — P5: both outside the range.) -/
+theorem csv_text_column (toks : List Str) (hna : ∀ t ∈ toks, WriterCsv.isNA t = false)
+    (hx : ∃ t ∈ toks, WriterCsv.isFloatTok t = false ∧ WriterCsv.isIntTok t = false ∧ WriterCsv.isBoolTok t = false) :
+    WriterCsv.inferCol toks = some (.strs toks) :=
+  WriterCsv.infer_text_column toks hna hx
+
 /-! ### the writers do not alter what they are given -/
 
 /-- **No writer assigns to, deletes from or calls a mutating method on an object reachable from its arguments or
@@ -521,6 +652,17 @@ example : tmsRowsInRange ["YYYY-MM-DD", "YEAR", "X", "EAST"]
 
 example : ∃ line, csvLine [.s, .f 2, .d] [.str "G01".toList, .num (5 / 2), .int 7] = some line := ⟨_, rfl⟩
 
+/-- a TYPE 002 line within the hypotheses of `sta_002_columns_v52` -/
+example : allFit (sta002Row.take 22)
+    [.str "ARGI".toList, .str "10117M002".toList, .str "001".toList, .str "2008 09 25 00 00 00".toList,
+     .str "2016 11 11 00 00 00".toList, .str "LEICA GRX1200GGPRO".toList, .str "356103".toList, .str "356103".toList,
+     .str "LEIAT504GG".toList, .str "LEIS".toList, .str "999999".toList, .str "999999".toList, .num 0, .num 0, .num (27 / 5000),
+     .str "Argir, Torshavn, FO".toList, .str "6.00".toList] = true := by decide +kernel
+
+example : WriterCsv.csvParse "date,sat,amp\n2015-10-05 18:07:24,G01,0.12\n2015-10-06 18:07:24,E11,nan\n".toList =
+    [("date", .strs ["2015-10-05 18:07:24".toList, "2015-10-06 18:07:24".toList]), ("sat", .strs ["G01".toList, "E11".toList]),
+     ("amp", .floats [some (3 / 25), none])] := by decide +kernel
+
 example : cluInRange ["NMA solution".toList, "30-SEP-26 02:09".toList] ["zimm".toList, "0abi".toList, "ab".toList] = true := by
   decide +kernel
 
@@ -554,6 +696,13 @@ end Midgard.Props.C17
 #print axioms Midgard.Props.C17.vel_file_roundtrip
 #print axioms Midgard.Props.C17.clu_layout_is
 #print axioms Midgard.Props.C17.clu_file_roundtrip
+#print axioms Midgard.Props.C17.parser_column_reads_cell
+#print axioms Midgard.Props.C17.sta_002_tables_read
+#print axioms Midgard.Props.C17.sta_002_columns_v52
+#print axioms Midgard.Props.C17.sta_002_columns_54_partial
+#print axioms Midgard.Props.C17.sta_002_remark_v52
+#print axioms Midgard.Props.C17.sta_002_map_names
+#print axioms Midgard.Props.C17.tms_ref_coordinate_columns
 #print axioms Midgard.Props.C17.sta_lookup_sound
 #print axioms Midgard.Props.C17.sta_lookup_complete
 #print axioms Midgard.Props.C17.sta_records_equipment_installed
@@ -566,6 +715,11 @@ end Midgard.Props.C17
 #print axioms Midgard.Props.C17.tms_columns_right_aligned
 #print axioms Midgard.Props.C17.csv_line_roundtrip
 #print axioms Midgard.Props.C17.tms_field_tables_agree
+#print axioms Midgard.Props.C17.csv_rows_of_written_file
+#print axioms Midgard.Props.C17.csv_int_column
+#print axioms Midgard.Props.C17.csv_float_column
+#print axioms Midgard.Props.C17.csv_nan_column_dropped
+#print axioms Midgard.Props.C17.csv_text_column
 #print axioms Midgard.Props.C17.writers_assign_nothing_on_inputs
 #print axioms Midgard.Props.C17.writer_effect_roots_cover
 #print axioms Midgard.Props.C17.blocks_balanced
